@@ -66,4 +66,16 @@ TEXT = {
         "technique": "Lean 4 theorems over a mirror of deinterleave / LE conversion / FrameBuf fills + kernel-level differential correspondence + two-source stream comparison",
         "design_ref": "DESIGN.md section 3 C14",
     },
+    "C05": {
+        "level_text": "Proof over the protocol model (any W >= 1, any block list, every interleaving of feeder, W workers and hasher, no bound): C05_deterministic - every final state reachable without faults holds exactly frames 0..N-1 in order, each computed from its own block with its own number, and the hasher has consumed exactly the concatenated block bytes in order; C05_any_two_runs - any two complete runs (any fault plan) agree on result and hash input; C05_numbering, C05_no_lock_contention, C05_frames support invariants (token conservation, numbering, sink contents). Worker count is a parameter (from config, FLACENC_WORKERS or core count in the code; 0 is excluded by C06_W0_deadlock + the fix that ignores FLACENC_WORKERS=0). The model is tied to par.rs by trace validation: every real run's event log is replayed through Par.step.",
+        "level_note": "Partial in two respects, both stated: the OS scheduler and the atomicity of channel/mutex operations are assumed, not modelled; equality of the *bytes* additionally needs the per-frame encoder to be a function of its arguments (C10, C09 functional correspondence) - compared directly on every case (mt = st = uninstrumented mt = frame-by-frame).",
+        "technique": "Lean 4 invariant proofs over a transition-system model of the thread protocol + trace validation of the real code against the model + direct byte comparison under perturbed schedules",
+        "design_ref": "DESIGN.md section 3 C05, Appendix A",
+    },
+    "C06": {
+        "level_text": "Proof over the same model with fault plans (read error at any read index, any set of blocks holding an out-of-range sample, any combination): C06_deadlock_free(_strong) - every reachable non-final state has an enabled step (a join is only ever needed for a thread that has exited); C06_potential_decreases / C06_run_length / C06_terminates - a natural-number potential strictly decreases with every step, so every run has at most 9N+3W+7 steps; C06_final - in every final state all W workers and the hasher have exited and were joined and the result equals the single-thread loop's (first failure in sequential order: Config for the first invalid block before Source for a later read error); C06_first_error, C06_framenum_set (the frame-number expect never fires), C06_capacities, C06_md5_stream; C06_W0_deadlock (negative control). Tied to par.rs by trace validation incl. faulty runs; the runtime half (returns, no leaked OS threads, no helper-thread panic) is observed by the direct oracles.",
+        "level_note": "Atomicity of modelled steps and thread exit = OS thread gone are assumptions/observations. Needs non-empty data blocks (source contract); C06_empty_block_deadlock exhibits the hang a contract-violating source would cause.",
+        "technique": "Lean 4 proofs (invariants, progress, termination potential, refinement to the sequential result) over the protocol model + trace validation + fault enumeration with watchdog and thread accounting on the real code",
+        "design_ref": "DESIGN.md section 3 C06, Appendix A",
+    },
 }
